@@ -448,6 +448,71 @@ def mir_value_key(fn, op, depth=6):
     return r
 
 
+def mir_vkey(fn, op, depth=6):
+    """value key of an operand with places normalised: the base local of a place is rooted through copies of references,
+    `Index::index(x, i)` bases become ("idx", key(x), key(i)), deref / as_slice / inner / clone wrappers are looked through;
+    equal keys => same value as long as the leaf locals are unchanged in between."""
+    return _vnorm(fn, mir_value_key(fn, op, depth), depth)
+
+
+def _vnorm(fn, k, depth):
+    import json as _json
+    if isinstance(k, tuple) and k and k[0] == "place":
+        try:
+            pl = _json.loads(k[1])
+        except Exception:
+            return k
+        proj = tuple(str(x) for x in pl.get("p", []) if x != "*")
+        return ("proj", _vbase(fn, pl.get("l"), depth), proj)
+    if isinstance(k, tuple) and k and k[0] == "local":
+        return _vbase(fn, k[1], depth)
+    if isinstance(k, tuple):
+        return tuple(_vnorm(fn, x, depth) if isinstance(x, tuple) else x for x in k)
+    return k
+
+
+def _vbase(fn, l, depth):
+    if depth <= 0 or not isinstance(l, int):
+        return ("local", l)
+    r = mir_root(fn, {"c": l})
+    if r[0] == "place":
+        return _vnorm(fn, r, depth - 1)
+    if r[0] == "local":
+        ds = fn.defs().get(r[1], [])
+        if len(ds) == 1 and ds[0][0] != "stmt":
+            c = ds[0][2]
+            if re.search(r"Index(Mut)?(<.*>)?>?::index(_mut)?$", c.name) and len(c.args) == 2:
+                return ("idx", mir_vkey(fn, c.args[0], depth - 1), mir_vkey(fn, c.args[1], depth - 1))
+            if re.search(r"Deref(Mut)?(<.*>)?>?::deref(_mut)?$|::as_slice$|::inner$|::inner_mut$|::clone$", c.name) and c.args:
+                return mir_vkey(fn, c.args[0], depth - 1)
+        return ("local", r[1])
+    return r
+
+
+def mir_strict_order_guards(fn, view, bb):
+    """the strict orderings `x < y` that hold on every path to block bb: set of (key(x), key(y)) from the necessary branch
+    literals whose switch operand is a single comparison (Lt/Gt taken, Ge/Le refused)."""
+    out = set()
+    for l in view.guards(bb):
+        sw = fn.blocks[l.bb]["t"].get("switch")
+        sd = mir_def(fn, sw) if sw else None
+        while sd and sd[0] == "stmt" and sd[1].get("un") == "Not":   # the literal's polarity is already that of the un-negated term
+            sd = mir_def(fn, sd[1].get("a", sd[1].get("x")))
+        if not (sd and sd[0] == "stmt" and sd[1].get("bin") in ("Lt", "Gt", "Le", "Ge")) or not isinstance(l.polarity, bool):
+            continue
+        a, b = mir_vkey(fn, sd[1]["a"]), mir_vkey(fn, sd[1]["b"])
+        op = sd[1]["bin"]
+        if op == "Lt" and l.polarity:
+            out.add((a, b))
+        elif op == "Gt" and l.polarity:
+            out.add((b, a))
+        elif op == "Ge" and not l.polarity:
+            out.add((a, b))
+        elif op == "Le" and not l.polarity:
+            out.add((b, a))
+    return out
+
+
 def answer_definitions(fn, depth=14):
     """the definitions of what a function answers: for Result-returning functions the payload of every `Ok(..)` that reaches
     the return place, otherwise the returned value itself. Each is returned as a simp_deep term; a top-level `phi` means the
